@@ -719,6 +719,8 @@ def run_e(prop, tier, n_st=350, n_pool=350, dfs_budget=500, long_runs=30):
             failures.append(dict(kind='schedule', summary=msg, config=dict(kind='backend_cancellation'), got_from_impl=msg))
     if prop == 'C07':
         ra_fails, ra_runs = dataset_level_readahead(ld, r, tier)
+        pf, pr = process_backend_readahead(ld, r, tier)
+        ra_fails, ra_runs = ra_fails + pf, ra_runs + pr
         be_runs += ra_runs
         for msg in ra_fails[:5]:
             failures.append(dict(kind='schedule', summary=msg, config=dict(kind='dataset_readahead'), got_from_impl=msg))
@@ -795,7 +797,8 @@ def bexc(name):
     import queue, concurrent.futures, lazy_dataset
     return {'FnFail': FnFail, 'Empty': queue.Empty, 'KeyError': KeyError, 'FilterException': lazy_dataset.FilterException,
             'FnFailBase': FnFailBase, 'CancelledError': concurrent.futures.CancelledError, 'IndexError': IndexError,
-            'StopAsyncIteration': StopAsyncIteration}[name]
+            'StopAsyncIteration': StopAsyncIteration, 'NotImplementedError': NotImplementedError, 'AttributeError': AttributeError,
+            'TypeError': TypeError, 'AssertionError': AssertionError, 'ValueError': ValueError}[name]
 
 
 def b_reference(n, table, catch):
@@ -835,7 +838,9 @@ def backend_checks(ld, r, tier, prop):
     fails, runs = [], 0
     quick = tier == 'quick'
     backends = ['t', False, 'concurrent_mp', 'dill_mp', 'mp'] if quick else ['t', 'thread', False, 'mp', 'dill_mp', 'multiprocessing', 'concurrent_mp']
-    classes = ['FnFail', 'Empty', 'KeyError', 'FilterException', 'FnFailBase', 'CancelledError', 'IndexError', 'StopAsyncIteration']
+    classes = ['FnFail', 'Empty', 'KeyError', 'FilterException', 'FnFailBase', 'CancelledError', 'IndexError', 'StopAsyncIteration',
+               # classes the library itself raises and catches internally (items() protocol, len(), keys(), asserts)
+               'NotImplementedError', 'AttributeError', 'TypeError', 'AssertionError', 'ValueError']
     with warnings.catch_warnings():
         warnings.simplefilter('ignore')
         for be in backends:
@@ -933,7 +938,7 @@ def backend_checks(ld, r, tier, prop):
                                 ln = len(src.map(fn).prefetch(w, b, backend=be))
                                 if ln != n:
                                     fails.append(f'backend {be} w={w} b={b} n={n}: len {ln}')
-                                if thread and w == 1:
+                                if be == 't' and w == 1:      # the single-thread path; every other configuration refuses items() loudly
                                     gk = list(src.map(fn).prefetch(w, b, backend=be).items())
                                     if gk != [(f'k{i:02d}', v) for i, v in enumerate(exp[0])]:
                                         fails.append(f'backend t w=1: items() behind prefetch gave {gk}')
@@ -1111,6 +1116,69 @@ def backend_cancellation(ld, r, tier):
 
 
 # ------------------------------------------------------------------ read-ahead through the Dataset API (OS schedule, stalled consumer)
+def _mark(x, path=None):
+    with open(path, 'a') as fh:
+        fh.write(f'{x}\n')
+    return x
+
+
+def process_backend_readahead(ld, r, tier):
+    """C07 on the real process pools: a consumer that pauses between reads; the source examples pulled beyond those delivered
+    and the function applications started beyond those delivered (counted through a file the workers append to) must stay
+    within buffer_size (+1 pulled for the element in hand) - not grow with the dataset length or the length of the pauses."""
+    import functools, tempfile, time, warnings
+    fails, runs = [], 0
+    n = 80
+    quick = tier == 'quick'
+    import lazy_dataset.parallel_utils as _pu
+    with warnings.catch_warnings():
+        warnings.simplefilter('ignore')
+        for be in ['dill_mp', 'multiprocessing', 'concurrent_mp', 'mp']:
+            for (w, b) in ([(2, 3)] if quick else [(2, 3), (1, 1), (3, 5)]):
+                for kind in (('direct', 'parmap') if quick else ('direct', 'parmap', 'prefetch')):
+                    fd, path = tempfile.mkstemp(prefix='c07_', suffix='.log')
+                    os.close(fd)
+                    fn = functools.partial(_mark, path=path)
+                    pulled = []
+
+                    def gen():
+                        for i in range(n):
+                            pulled.append(i)
+                            yield i
+                    src = ld.new(list(range(n)))
+                    runs += 1
+                    it = None
+                    worst_started = worst_pulled = 0
+                    try:
+                        if kind == 'direct': it = _pu.lazy_parallel_map(fn, gen(), buffer_size=b, max_workers=w, backend=be)
+                        elif kind == 'parmap': it = iter(src.map(fn, num_workers=w, buffer_size=b, backend=be))
+                        else: it = iter(src.map(fn).prefetch(w, b, backend=be))
+                        for k in range(1, 4):
+                            next(it)
+                            time.sleep(0.25 if k == 1 else 0.1)
+                            started = len(open(path).read().split())
+                            worst_started = max(worst_started, started - k)
+                            worst_pulled = max(worst_pulled, len(pulled) - k)
+                    except Exception as e:
+                        fails.append(f'backend {be} {kind} num_workers={w} buffer_size={b}: raised {type(e).__name__}: {e}'[:300])
+                    finally:
+                        if it is not None:
+                            try: it.close()
+                            except Exception: pass
+                        try: os.unlink(path)
+                        except OSError: pass
+                    if worst_started > b:
+                        fails.append(f'backend {be} {kind} num_workers={w} buffer_size={b}: {worst_started} function applications started beyond the delivered examples while the consumer paused (bound: buffer_size = {b}; dataset length {n})')
+                    if kind == 'direct' and worst_pulled > b + 1:
+                        fails.append(f'backend {be} {kind} num_workers={w} buffer_size={b}: {worst_pulled} source examples pulled beyond the delivered ones while the consumer paused (bound: buffer_size + 1 = {b + 1}; dataset length {n})')
+    try:
+        import pathos.helpers
+        pathos.helpers.shutdown()
+    except Exception:
+        pass
+    return fails, runs
+
+
 def dataset_level_readahead(ld, r, tier):
     """ds.map(fn, num_workers, buffer_size), ds.batch(..).batch_map(fn, num_workers, buffer_size) and
     ds.prefetch(w, b) - value and key iteration - with a consumer that stalls after every example: the number of
